@@ -26,7 +26,7 @@ def membersOf (env : Env) (r : Record) : List (List Char × JVal) :=
 theorem messageMembers_eq (env : Env) (r : Record) :
     messageMembers env r = (membersOf env r).map fun p => member p.1 (renderVal p.2) := by
   cases hm : r.modulePath <;> cases hf : r.file <;> cases hl : r.line <;> cases ht : env.thread <;>
-    simp [messageMembers, membersOf, optMember, renderVal, hm, hf, hl, ht]
+    simp [messageMembers, membersOf, optMember, renderVal, jstrPieces_eq, Record.message, hm, hf, hl, ht]
 
 theorem jsonLine_eq (env : Env) (r : Record) :
     jsonLine env r
@@ -166,10 +166,48 @@ theorem readLineMembers_jsonLine (env : Env) (r : Record) :
 
 /-! ### interpreting the members -/
 
-theorem toFields_membersOf (env : Env) (r : Record) : toFields (membersOf env r) = some (fieldsOf env r) := by
-  obtain ⟨level, message, mp, file, line, target⟩ := r
+theorem toFieldsCore_membersOf (env : Env) (r : Record) : toFieldsCore (membersOf env r) = some (fieldsOf env r) := by
+  obtain ⟨level, pieces, mp, file, line, target⟩ := r
   obtain ⟨time, thread, tid, mdc⟩ := env
   cases mp <;> cases file <;> cases line <;> cases thread <;> rfl
+
+/-- the thread's MDC is a map: no key twice -/
+def MdcIsMap (env : Env) : Prop := noDupKeys (env.mdc.map (·.1)) = true
+
+instance (env : Env) : Decidable (MdcIsMap env) := by unfold MdcIsMap; infer_instance
+
+theorem toFields_membersOf (env : Env) (r : Record) (h : MdcIsMap env) :
+    toFields (membersOf env r) = some (fieldsOf env r) := by
+  unfold MdcIsMap at h
+  simp [toFields, toFieldsCore_membersOf, fieldsOf, h]
+
+theorem toFields_membersOf_dup (env : Env) (r : Record) (h : ¬ MdcIsMap env) :
+    toFields (membersOf env r) = none := by
+  unfold MdcIsMap at h
+  simp [toFields, toFieldsCore_membersOf, fieldsOf, h]
+
+theorem lookup_self_of_noDup (l : List (List Char × List Char)) (h : noDupKeys (l.map (·.1)) = true) :
+    ∀ kv ∈ l, l.lookup kv.1 = some kv.2 := by
+  induction l with
+  | nil => intro kv hkv; cases hkv
+  | cons e rest ih =>
+    obtain ⟨k, v⟩ := e
+    simp only [List.map_cons, noDupKeys, Bool.and_eq_true, Bool.not_eq_true', List.contains_eq_mem,
+      decide_eq_false_iff_not] at h
+    intro kv hkv
+    rcases List.mem_cons.mp hkv with rfl | hin
+    · simp [List.lookup]
+    · have hne : kv.1 ≠ k := by
+        intro he
+        exact h.1 (he ▸ List.mem_map_of_mem hin)
+      have : (kv.1 == k) = false := by simpa using hne
+      rw [List.lookup_cons, this]
+      exact ih h.2 kv hin
+
+theorem sameMap_self (l : List (List Char × List Char)) (h : noDupKeys (l.map (·.1)) = true) :
+    sameMap l l = true := by
+  simp only [sameMap, h, Bool.true_and, beq_self_eq_true, List.all_eq_true, beq_iff_eq]
+  exact lookup_self_of_noDup l h
 
 /-- the keys the emitted object must have, by presence of module path, file, line -/
 def expectedKeysB (m f l : Bool) : List (List Char) :=
